@@ -8,6 +8,8 @@ in concrete mode the scripted values are returned by the same code.
 
 An optional fault schedule turns every objective call into a symbolic 4-way choice
 (ok / TimeoutError / RuntimeError / other exception)."""
+import math
+
 from symx import core, ops, stubs
 from symx.ops import And, Implies
 
@@ -73,6 +75,7 @@ class Oracle(object):
         self.fault_kinds = 4
         self.fault_filter = None     # optional predicate(individual): may this call fail?
         self.return_array = False
+        self.may_be_inf = False
 
     def _congruent(self, prev_calls, vec, vals):
         ctx = self.ctx
@@ -99,6 +102,8 @@ class Oracle(object):
                 raise RuntimeError('injected')
             raise OtherError('injected')
         vals = [ctx.real('F%d_call%d' % (k, j)) for k in range(self.n_obj)]
+        if getattr(self, 'may_be_inf', False) and ctx.choice('F0_is_inf_call%d' % j, 2) == 1:
+            vals[0] = math.inf            # a penalised / failed design: the objective returns +inf
         self._congruent([(v, x) for v, x, f in self.calls], vec, vals)
         self.calls.append((vec, vals, 'ok'))
         if getattr(self, 'return_array', False):
